@@ -299,6 +299,9 @@ func genC18(r *Rng, cfg GenConfig, c *HashCase, ncpu int) {
 		return
 	}
 	sizes := []int{0, 1, 2, 3, 5, ncpu - 1, ncpu, ncpu + 1, 2 * ncpu, 4 * ncpu}
+	if thorough {
+		sizes = append(sizes, 8*ncpu+1, 100, 257)
+	}
 	n := Pick(r, sizes)
 	if n < 0 {
 		n = 0
